@@ -251,9 +251,12 @@ func applyAssignment(d *dataTreeNavigator, context Context, pathIndexToStartFrom
 	}
 	rhsOp := &Operation{OperationType: referenceOpType, CandidateNode: rhs}
 
+	// the path is made of the right operand's keys: they name entries, they are not patterns
+	traversePrefs := preferences.TraversePrefs
+	traversePrefs.ExactKeyMatch = true
 	assignmentOpNode := &ExpressionNode{
 		Operation: assignmentOp,
-		LHS:       createTraversalTree(lhsPath, preferences.TraversePrefs, rhs.IsMapKey),
+		LHS:       createTraversalTree(lhsPath, traversePrefs, rhs.IsMapKey),
 		RHS:       &ExpressionNode{Operation: rhsOp},
 	}
 
